@@ -272,6 +272,27 @@ def r2(ctx, sc):
                 v.name, canon, a.line, k, br.line, '; underflow edge fatal' if canon == 'yy_pop_state' else ''))
     return n
 
+def r2_reset(ctx, sc):
+    """the guards of push/pop/top rely on 0 <= yy_start_stack_ptr <= yy_start_stack_depth.  push keeps it (checked above); every
+    function that sets the depth to a constant (instance initialisation / re-initialisation after yylex_destroy) must, on every
+    path, also set the index to a constant within 0..depth - otherwise a re-initialised scanner pushes at a stale index."""
+    rep = ctx.rep; v = sc.v; n = 0
+    for f in sc.mod.functions.values():
+        dst = [x for x in stores_of(sc, f, 'yy_start_stack_depth') if x.ops[0][0] == 'int']
+        if not dst: continue
+        n += 1
+        c = sc.canon(f); cfg = sc.prog.cfg(f)
+        cap = min(x.ops[0][1] for x in dst)
+        pst = [x for x in stores_of(sc, f, 'yy_start_stack_ptr') if x.ops[0][0] == 'int' and 0 <= x.ops[0][1] <= cap]
+        # `a = b = 0` stores the same constant through a register chain: accept stores of a value that is that constant store's operand
+        key = sc.key('C05.R2', c, 'index-reset-with-depth')
+        if not pst or any(y.op == 'ret' for y in S.entry_reach(cfg, f, avoid=pst)):
+            rep.fail('C05.R2', key, where(dst[0]), '%s sets yy_start_stack_depth to %d but does not, on every path, set yy_start_stack_ptr to a value in 0..%d: after re-initialisation '
+                     '(yylex_destroy, then reuse) yy_push_state stores at the stale index beyond the freshly allocated stack [variant %s]' % (c, cap, cap, v.name), variant=v.describe())
+        else:
+            rep.ok('C05.R2', '%s %s: depth := %d together with ptr := %d on every path' % (v.name, c, cap, pst[0].ops[0][1]))
+    return n
+
 # ---------------------------------------------------------------- R3 (generator, parse.y through parse.c IR)
 
 def esig(fn, v, depth=0):
@@ -341,6 +362,23 @@ class Cases:
             if s.in_region(label, b):
                 yield from b.ins
 
+def loop_over_conditions(cs, label, blk, idxsig):
+    """block `blk` of grammar action `label` lies in a loop `for (i = 1; i <= lastsc; ++i)` over the variable with signature
+    idxsig: returns None, or the reason why not"""
+    f = cs.fn; cfg = cs.cfg
+    ok_bound = False
+    for br, t in cs.deps(label, blk):
+        con = S.edge_constraint(f, br, t.name)
+        if con is None: continue
+        a, b = esig(f, con[1]), esig(f, con[2])
+        if con[0] == 'sle' and a == idxsig and b == ('ld', ('g', 'lastsc')): ok_bound = True
+        if con[0] == 'sge' and b == idxsig and a == ('ld', ('g', 'lastsc')): ok_bound = True
+    if not ok_bound: return 'the loop is not bounded by i <= lastsc'
+    if idxsig[0] != 'ld': return 'loop index is not a variable'
+    inits = [y for y in cs.ins(label) if y.op == 'store' and esig(f, y.ops[1]) == idxsig[1] and y.ops[0][0] == 'int' and cfg.dominates(y.blk, blk)]
+    if not inits or inits[-1].ops[0] != ('int', 1): return 'the loop does not start at start condition 1'
+    return None
+
 def r3(ctx):
     rep = ctx.rep
     P = ctx.flex
@@ -366,20 +404,7 @@ def r3(ctx):
         if idx is not None: star.append((x, idx))
     if len(dist) < 5: rep.broken('C05.R3: found %d stores arr[..] = mkbranch(..) into scset/scbol in yyparse, 5 confirmed by hand' % len(dist))
     def loop_over_all(label, blk, idxsig, what, x):
-        """the store is in a loop `for (i = 1; i <= lastsc; ++i)` over the same i"""
-        ok_bound = False
-        for br, t in cs.deps(label, blk):
-            con = S.edge_constraint(f, br, t.name)
-            if con is None: continue
-            a, b = esig(f, con[1]), esig(f, con[2])
-            if con[0] == 'sle' and a == idxsig and b == ('ld', ('g', 'lastsc')): ok_bound = True
-            if con[0] == 'sge' and b == idxsig and a == ('ld', ('g', 'lastsc')): ok_bound = True
-        if not ok_bound: return 'the loop is not bounded by i <= lastsc'
-        # initialisation i = 1 inside the region, dominating the store
-        if idxsig[0] != 'ld': return 'loop index is not a variable'
-        inits = [y for y in cs.ins(label) if y.op == 'store' and esig(f, y.ops[1]) == idxsig[1] and y.ops[0][0] == 'int' and cfg.dominates(y.blk, blk)]
-        if not inits or inits[-1].ops[0] != ('int', 1): return 'the loop does not start at start condition 1'
-        return None
+        return loop_over_conditions(cs, label, blk, idxsig)
     n = 0
     for x, arr, idx, call in dist:
         label = cs.label_of(x.blk)
@@ -531,6 +556,7 @@ def run(ctx):
         n1 += r1(ctx, sc)
         k = r2(ctx, sc)
         if k: stackv += 1; backs.add(v.backend)
+        r2_reset(ctx, sc)
         n2 += k
         n4 += r4(ctx, sc, K, kins)
     n3 = r3(ctx)
@@ -539,7 +565,7 @@ def run(ctx):
     rep.setcount('variants_with_start_stack', stackv)
     rep.setcount('functions_checked_for_yy_start_writes', n1)
     rep.floor('C05.R1', 3500, '>=30 non-writer functions in each of >=115 variants')
-    rep.floor('C05.R2', 150, 'push/pop/top in each of >=55 variants with %option stack')
+    rep.floor('C05.R2', 250, 'push/pop/top in each of >=55 variants with %option stack, plus the reset pairing in the initialisation function of >=100 variants')
     rep.floor('C05.R3', 6, '5 distribution stores + the <*> loop in parse.y')
     rep.floor('C05.R4', 250, 'ntod + >=2 sites in every variant with start-condition functions')
     rep.undecided += ['which rules are active for a given input in a given start condition (value-level: NFA construction)',
